@@ -84,6 +84,10 @@ def make_case(rng, tier, idx):
         # sensors first in the observation, the source axis of the mask at its documented default position (-2), which
         # the caller therefore does not pass
         time_pos, source_pos, sensor_pos = nd - 1, nd - 2, 0
+    if kind == 'src' and idx % 4 == 2 and nd >= 3:
+        # time first, then the source axis of the mask / the sensor axis of the observation, then further leading axes:
+        # observation (T, D, F, ...), mask (T, K, F, ...), normalised
+        time_pos, source_pos, sensor_pos, normalize = 0, 1, 1, True
     obs = _arrange(x, lead_n, {sensor_pos: 'A', time_pos: 'B'})
     kw = {}
 
